@@ -260,7 +260,7 @@ theorem packInfo_core (used : List BlobH) (idx : List PB) (st : Stats)
     rw [hcnt] at this
     simp at this; omega
   -- initial state of the third pass
-  have hinit : BlobOK idx { cnt := cnt, ip := s2.ip, st := s2.st, sel := [] } idx b := by
+  have hinit : BlobOK idx { cnt := cnt, ip := s2.ip, st := s2.st, marks := [] } idx b := by
     by_cases h1 : occ b idx = 1
     · left
       refine ⟨by simp [hcnt, h1], ?_⟩
